@@ -213,6 +213,45 @@ fn sweep_workspace(prop: &str, rep: &mut Report, files: &[(String, String)], r: 
     (sw.max_query_s, sw.slowest)
 }
 
+/// A definition chain in a LONG-LIVED host: asked once (memoised results all along the
+/// chain), then edited - a declaration added at the top, which changes every offset and the
+/// module's declarations but no function - and asked again. What was nested while computing
+/// nests again while salsa checks that the memoised results are still valid.
+fn sweep_after_edit(prop: &str, rep: &mut Report, files: &[(String, String)], r: &mut Rng, replay: serde_json::Value) {
+    let pkgs = ws::single_package(files);
+    let mut loaded = ws::load_packages(&pkgs);
+    let qs = [Q::Hover, Q::Diags, Q::HlFull, Q::Goto, Q::Compl(None)];
+    let edits = ["pub type ZzAdded { ZzAdded }\n", "// a comment\n", "pub fn zz_added(q) { q }\n"];
+    for (step, prefix) in std::iter::once("").chain(edits.iter().copied()).enumerate() {
+        if step > 0 {
+            let mut change = ide::Change::default();
+            for f in loaded.files.iter_mut().filter(|f| f.1.ends_with(".gleam")) {
+                f.2 = format!("{prefix}{}", f.2);
+                change.change_file(f.0, std::sync::Arc::from(f.2.as_str()));
+            }
+            loaded.host.apply_change(change);
+        }
+        let an = loaded.host.snapshot();
+        let tables: Vec<(FileId, TokenTable)> = loaded.files.iter().map(|f| (f.0, ws::token_table(&f.2))).collect();
+        let mut sw = Sweep { prop, rep: &mut *rep, max_query_s: 0.0, slowest: String::new() };
+        for (fid, path, text) in &loaded.files {
+            if !path.ends_with(".gleam") {
+                continue;
+            }
+            let tt = &tables.iter().find(|t| t.0 == *fid).unwrap().1;
+            // the last definitions of the file first (the far end of the chain), then a few more
+            let mut offs: Vec<u32> = tt.tokens.iter().rev().take(12).map(|t| t.0 as u32).collect();
+            offs.extend(offsets_of(text, tt, r, 3));
+            for pos in offs {
+                for q in &qs {
+                    sw.one(&loaded, &an, &tables, q, *fid, pos, &replay);
+                }
+            }
+        }
+        sw.rep.count("long_construct_queries_after_edits", if step > 0 { 1 } else { 0 });
+    }
+}
+
 fn files_json(files: &[(String, String)]) -> serde_json::Value {
     json!(files.iter().map(|(p, t)| json!([p, t])).collect::<Vec<_>>())
 }
@@ -313,6 +352,10 @@ fn run(args: Args) -> Report {
         let fj = json!({"kind":"generated-long-construct","spec":name});
         journal.begin("long-construct", name.as_bytes());
         let (m, s) = sweep_workspace(&prop, &mut rep, &files, &mut r, if args.thorough() { 24 } else { 4 }, json!({"kind":"workspace","files":files_json(&files),"ops":[name.clone()]}));
+        if name.starts_with("defs:") {
+            journal.begin("long-construct-edited", name.as_bytes());
+            sweep_after_edit(&prop, &mut rep, &files, &mut r, json!({"kind":"workspace","files":files_json(&files),"ops":[name.clone(), "then: declarations prepended, asked again".to_string()]}));
+        }
         rep.nontrivial(fnv(fj.to_string().as_bytes()));
         rep.see("damage_ops", "long-construct");
         rep.see("long_constructs", name);
